@@ -112,6 +112,12 @@ def _run_bounded(arg):
                     error="checker crash: " + traceback.format_exc(), seconds=time.time() - t0)
 
 
+def _proof_internal(obligation_id):
+    """obligations that are steps of an inductive argument about one loop, not statements about a function's result"""
+    import re
+    return bool(re.search(r"#loop\d+:|:inv-init|:inv-keep|:step\b|:step:", obligation_id))
+
+
 def _search(mod, tier, seed, errors):
     """the property's statement-level search; an exception that escapes from the code under check while the search is
     exercising it on an in-domain input is a failing input, any other exception is a crash of the search"""
@@ -340,6 +346,13 @@ def run_property(pid, tier="quick", seed=0, jobs=None):
                 reproduced = True
         if not reproduced and all(x.get("needs_witness") for x in inst):
             errors.append(f"{k}: {o['detail']} - no failing sequence of calls was found, so this is reported as undecided, not as a violation")
+            continue
+        if not reproduced and _proof_internal(k):
+            # an inductive step of the proof (loop invariant at entry / preserved, relational step, loop frame) failed and
+            # neither the counter-model nor the statement-level search gives a failing input: the loop contract does not fit
+            # the loop any more (a rewritten loop carries other state, initialises it differently) or the code is wrong in a
+            # way nothing here can exhibit. That is "not proved", reported as undecided with the obligation named.
+            errors.append(f"{k}: the inductive proof fails here ({str(o['detail'])[:160]}) and no failing input was found - undecided, not a violation")
             continue
         if not reproduced and all(x.get("auto_slots") for x in inst):
             # the proof failed in a context where the contract says nothing about a loop-carried local the code
